@@ -7,309 +7,9 @@ import (
 	"strings"
 
 	"gnoverif/c06env"
-	"gnoverif/kit"
 )
 
-// Generated realm programs.  `prog <seed>` deterministically generates a realm
-// from the seed: a node type with pointer, slice, array, map, closure,
-// interface and nested-struct fields, package-level variables of all those
-// shapes, and NFUNCS exported crossing functions T0…, each a random straight
-// line of attach / detach / share / re-attach / delete statements.  All
-// dereferences are nil-guarded, so every generated transaction is expected to
-// succeed; the interesting output is the oracle's verdict on the raw store.
-
-const nFuncs = 6
-
-const progHead = `package %s
-
-type Inner struct {
-	Q *N
-	W int
-}
-
-type N struct {
-	P   *N
-	S   []*N
-	A   [2]*N
-	M   map[string]*N
-	F   func() *N
-	I   interface{}
-	Sub Inner
-	V   int
-}
-
-var (
-	G0, G1, G2 *N
-	GS         []*N
-	GM         map[string]*N
-	GF         func() *N
-	GI         interface{}
-	GV         N
-	GA         [3]*N
-)
-
-func p(n *N) *N {
-	if n == nil {
-		return nil
-	}
-	return n.P
-}
-
-func q(n *N) *N {
-	if n == nil {
-		return nil
-	}
-	return n.Sub.Q
-}
-
-func a0(n *N) *N {
-	if n == nil {
-		return nil
-	}
-	return n.A[0]
-}
-
-func s0(s []*N) *N {
-	if len(s) == 0 {
-		return nil
-	}
-	return s[0]
-}
-
-func sl(s []*N) *N {
-	if len(s) == 0 {
-		return nil
-	}
-	return s[len(s)-1]
-}
-
-func ns(n *N) []*N {
-	if n == nil {
-		return nil
-	}
-	return n.S
-}
-
-func mk(m map[string]*N, k string) *N {
-	if m == nil {
-		return nil
-	}
-	return m[k]
-}
-
-func nm(n *N) map[string]*N {
-	if n == nil {
-		return nil
-	}
-	return n.M
-}
-
-func call(f func() *N) *N {
-	if f == nil {
-		return nil
-	}
-	return f()
-}
-
-func nf(n *N) func() *N {
-	if n == nil {
-		return nil
-	}
-	return n.F
-}
-
-func asN(i interface{}) *N {
-	if n, ok := i.(*N); ok {
-		return n
-	}
-	return nil
-}
-
-func ni(n *N) interface{} {
-	if n == nil {
-		return nil
-	}
-	return n.I
-}
-
-func capture(x *N) func() *N {
-	return func() *N { return x }
-}
-
-func counter(x *N) func() *N {
-	n := 0
-	return func() *N {
-		n++
-		if x != nil {
-			x.V = n
-		}
-		return x
-	}
-}
-`
-
-type progGen struct {
-	r  *kit.Rand
-	sb strings.Builder
-	nl int // local counter
-}
-
-// expr yields a Gno expression of type *N that never panics.
-func (g *progGen) expr(depth int) string {
-	r := g.r
-	if depth > 2 {
-		return kit.Pick(r, []string{"G0", "G1", "G2", "(*N)(nil)", "&N{}"})
-	}
-	switch r.Intn(22) {
-	case 0, 1, 2:
-		return "&N{}"
-	case 3:
-		return "(*N)(nil)"
-	case 4:
-		return "G0"
-	case 5:
-		return "G1"
-	case 6:
-		return "G2"
-	case 7:
-		return "p(" + g.expr(depth+1) + ")"
-	case 8:
-		return "q(" + g.expr(depth+1) + ")"
-	case 9:
-		return "a0(" + g.expr(depth+1) + ")"
-	case 10:
-		return "s0(GS)"
-	case 11:
-		return "sl(GS)"
-	case 12:
-		return "s0(ns(" + g.expr(depth+1) + "))"
-	case 13:
-		return fmt.Sprintf("mk(GM, %q)", kit.Pick(r, []string{"a", "b", "c"}))
-	case 14:
-		return fmt.Sprintf("mk(nm(%s), %q)", g.expr(depth+1), kit.Pick(r, []string{"a", "b"}))
-	case 15:
-		return "call(GF)"
-	case 16:
-		return "call(nf(" + g.expr(depth+1) + "))"
-	case 17:
-		return "asN(GI)"
-	case 18:
-		return "asN(ni(" + g.expr(depth+1) + "))"
-	case 19:
-		return "GV.P"
-	case 20:
-		return "GA[" + fmt.Sprint(r.Intn(3)) + "]"
-	default:
-		return "&N{P: " + g.expr(depth+1) + "}"
-	}
-}
-
-func (g *progGen) local() string {
-	g.nl++
-	return fmt.Sprintf("x%d", g.nl)
-}
-
-func (g *progGen) stmt() {
-	r := g.r
-	w := func(f string, a ...any) { fmt.Fprintf(&g.sb, "\t"+f+"\n", a...) }
-	e := func() string { return g.expr(0) }
-	switch r.Intn(30) {
-	case 0:
-		w("G0 = %s", e())
-	case 1:
-		w("G1 = %s", e())
-	case 2:
-		w("G2 = %s", e())
-	case 3:
-		x := g.local()
-		w("if %s := (%s); %s != nil { %s.P = %s }", x, e(), x, x, e())
-	case 4:
-		x := g.local()
-		w("if %s := (%s); %s != nil { %s.Sub.Q = %s }", x, e(), x, x, e())
-	case 5:
-		x := g.local()
-		w("if %s := (%s); %s != nil { %s.A[%d] = %s }", x, e(), x, x, r.Intn(2), e())
-	case 6:
-		w("GS = append(GS, %s)", e())
-	case 7:
-		w("if len(GS) > 0 { GS = GS[:len(GS)-1] }")
-	case 8:
-		w("if len(GS) > 0 { GS = GS[1:] }")
-	case 9:
-		w("if len(GS) > %d { GS[%d] = %s }", r.Intn(3), 0, e())
-	case 10:
-		w("GS = nil")
-	case 11:
-		x := g.local()
-		w("if %s := (%s); %s != nil { %s.S = append(%s.S, %s) }", x, e(), x, x, x, e())
-	case 12:
-		x := g.local()
-		w("if %s := (%s); %s != nil { %s.S = GS }", x, e(), x, x)
-	case 13:
-		w("if GM == nil { GM = map[string]*N{} }")
-		w("GM[%q] = %s", kit.Pick(r, []string{"a", "b", "c"}), e())
-	case 14:
-		w("delete(GM, %q)", kit.Pick(r, []string{"a", "b", "c"}))
-	case 15:
-		w("GM = nil")
-	case 16:
-		x := g.local()
-		w("if %s := (%s); %s != nil { if %s.M == nil { %s.M = map[string]*N{} }; %s.M[%q] = %s }", x, e(), x, x, x, x, kit.Pick(r, []string{"a", "b"}), e())
-	case 17:
-		w("GF = capture(%s)", e())
-	case 18:
-		w("GF = counter(%s)", e())
-	case 19:
-		w("GF = nil")
-	case 20:
-		x := g.local()
-		w("if %s := (%s); %s != nil { %s.F = capture(%s) }", x, e(), x, x, e())
-	case 21:
-		w("GI = %s", e())
-	case 22:
-		x := g.local()
-		w("if %s := (%s); %s != nil { GI = *%s }", x, e(), x, x)
-	case 23:
-		w("GI = nil")
-	case 24:
-		x := g.local()
-		w("if %s := (%s); %s != nil { %s.I = %s }", x, e(), x, x, e())
-	case 25:
-		w("GV = N{P: %s}", e())
-	case 26:
-		x := g.local()
-		w("if %s := (%s); %s != nil { GV = *%s }", x, e(), x, x)
-	case 27:
-		w("GA[%d] = %s", r.Intn(3), e())
-	case 28:
-		x := g.local()
-		w("if %s := (%s); %s != nil { %s.V++ }", x, e(), x, x)
-	default:
-		w("_ = call(GF)")
-	}
-}
-
-func genProgram(seed uint64, pkgName string) string {
-	g := &progGen{r: kit.NewRand(seed*2654435761 + 17)}
-	fmt.Fprintf(&g.sb, progHead, pkgName)
-	for f := 0; f < nFuncs; f++ {
-		fmt.Fprintf(&g.sb, "\nfunc T%d(cur realm) {\n", f)
-		n := 1 + g.r.Intn(6)
-		for i := 0; i < n; i++ {
-			g.stmt()
-		}
-		g.sb.WriteString("}\n")
-	}
-	// a package-level initialiser exercises the deploy-time finalize too
-	if g.r.Chance(50) {
-		g.sb.WriteString("\nfunc init() {\n")
-		for i := 0; i < 1+g.r.Intn(4); i++ {
-			g.stmt()
-		}
-		g.sb.WriteString("}\n")
-	}
-	return g.sb.String()
-}
+const nFuncs = c06env.NFuncs
 
 // Programs are deployed in the case layer; the block-node cache of the keeper
 // survives discarded case layers, so every deployment gets a fresh path.
@@ -347,7 +47,7 @@ func opProg(seedTok, expect string) (string, string) {
 	progSerial++
 	name := fmt.Sprintf("g%07d", progSerial)
 	path := "gno.land/r/c06/" + name
-	body := genProgram(seed, name)
+	body := c06env.GenProgram(seed, name)
 	if expect == "err" {
 		body += "\nfunc broken() { undefinedIdentifier() }\n"
 	}
